@@ -47,6 +47,7 @@ class Arr:
     hardmask: bool = False  # harden_mask() in force: item stores cannot uncover missing cells (A26)
     filledwith: object = None  # plain result of x.filled(v): (mask coverage of x, source text of v)
     validM: frozenset = E  # boolean array that is false wherever these inputs are missing (a masked comparison filled with False)
+    ascending: bool = False  # a 1-D collection of values known to be in ascending order (sorted in place, or built from a sorted list)
 
 
 @dataclass(frozen=True)
@@ -78,6 +79,7 @@ class Lst:
     items: tuple = None
     zipped: tuple = ()
     sliced: object = None  # for nums: (lo, hi) constant slice applied
+    argobj: str = None  # the very list object passed for this parameter (not a copy): mutating it changes the caller's value
 
 
 @dataclass(frozen=True)
@@ -245,6 +247,11 @@ class Interp(object):
     def finding(self, kind, node, msg, fr):
         self.res.findings.append((kind, getattr(node, "lineno", 0), msg, self.fkey(fr), node))
 
+    def arg_mutation(self, lst, node, what, fr):
+        self.res.findings.append(("arg-mutation", getattr(node, "lineno", 0),
+                                  "`%s` changes the list object passed as `%s` itself (no copy was taken): the caller's list - the same object on the next call, or shared with another command - is shorter or reordered afterwards, so a second use computes with the wrong values or fails its length check" % (what, lst.argobj),
+                                  self.fkey(fr), node))
+
     def write_site(self, base, node, what, fr):
         al = E
         if isinstance(base, Arr):
@@ -289,9 +296,9 @@ class Interp(object):
             vt = pt.kw.get("value_type")
             if isinstance(vt, tables.ParamTree):
                 if vt.is_a(idx, P + ".ResultParameter"):
-                    return Lst("cmds", L=name)
+                    return Lst("cmds", L=name, argobj=name)
                 if vt.is_a(idx, P + ".NumberParameter"):
-                    return Lst("nums", srcs=(name,))
+                    return Lst("nums", srcs=(name,), argobj=name)
             return Lst("opaque")
         if pt.is_a(idx, P + ".NumberParameter"):
             return Scal(sym="kw:" + name)
@@ -483,7 +490,8 @@ class Interp(object):
                         k = self.const_key(t.slice, fr)
                         base.d.pop(k, None)
                     elif isinstance(base, (Lst, Other)):
-                        pass
+                        if isinstance(base, Lst) and base.argobj:
+                            self.arg_mutation(base, s, "del %s" % _src(t), fr)
                     else:
                         self.unsupported("del on %r" % (base,), s, fr)
                 elif isinstance(t, ast.Name):
@@ -892,6 +900,8 @@ class Interp(object):
                     self.res.ncstores.append((stmt.lineno, v, stmt))
                 return
             if isinstance(base, Lst):
+                if base.argobj:
+                    self.arg_mutation(base, stmt, "%s = ..." % _src(t), fr)
                 return
             if isinstance(base, Arr):
                 idx = self.ev(t.slice, fr)
@@ -1552,11 +1562,11 @@ class ArrayInterp(Interp):
             if is_slice:
                 lo, hi = idx.info
                 if isinstance(lo, Scal) and lo.const == 1 and hi is None and base.part == "all":
-                    return replace(base, part="rest")
+                    return replace(base, part="rest", argobj=None)
                 if lo is None and hi is None:
-                    return base
+                    return replace(base, argobj=None)
                 if isinstance(lo, Scal) and lo.const == 0 and hi is None:
-                    return base
+                    return replace(base, argobj=None)
             # first, second and the others (`xs[0] op xs[1]`, then `for x in xs[2:]`): a three-way split the first/rest model of an
             # input list cannot follow - no verdict once both the second element and the tail from the third are read
             seen3 = self.__dict__.setdefault("_three_way", {})
@@ -1568,12 +1578,12 @@ class ArrayInterp(Interp):
             else:
                 self.finding("list-index", e, msg3, fr)
             if is_slice:
-                return replace(base, part="rest" if base.part == "all" else base.part)
+                return replace(base, part="rest" if base.part == "all" else base.part, argobj=None)
             return self.part_elem(replace(base, part="first" if base.part == "all" else base.part)) if base.what != "cmds" else Cmd(base.L, "first")
         if base.what == "nums":
             if is_slice:
                 lo, hi = idx.info
-                return replace(base, sliced=(lo.const if isinstance(lo, Scal) else None, hi.const if isinstance(hi, Scal) else None))
+                return replace(base, sliced=(lo.const if isinstance(lo, Scal) else None, hi.const if isinstance(hi, Scal) else None), argobj=None)
             el = base.elem if isinstance(base.elem, Scal) else Scal()
             which = "?"
             if isinstance(idx, Scal):
@@ -1862,13 +1872,26 @@ class ArrayInterp(Interp):
             if fv.tag == "lstmethod":
                 base, meth, basenode = fv.info
                 A, K = self.eval_args(e, fr)
+                if meth in ("append", "extend", "insert", "pop", "remove", "sort", "reverse", "clear") and base.argobj:
+                    self.arg_mutation(base, e, "%s.%s()" % (_src(basenode), meth), fr)
+                if meth == "pop" and len(A) == 1 and isinstance(A[0], Scal) and A[0].const == 0 and isinstance(basenode, ast.Name) and not K:
+                    # xs.pop(0): the first element; xs is the rest from then on
+                    if base.what in ("arrs", "cmds", "masks") and base.part == "all":
+                        fr.env[basenode.id] = replace(base, part="rest")
+                        return self.part_elem(replace(base, part="first")) if base.what != "cmds" else Cmd(base.L, "first")
+                    if base.what == "nums" and base.sliced in (None, (None, None), (0, None)):
+                        el = base.elem if isinstance(base.elem, Scal) else Scal()
+                        fr.env[basenode.id] = replace(base, sliced=(1, None))
+                        return Scal(D=el.D, Pg=el.Pg, dt=el.dt, sym="%s[0]" % ",".join(base.srcs))
+                if meth in ("pop", "remove", "sort", "reverse", "clear") and isinstance(basenode, ast.Name) and base.what != "mixed":
+                    self.unsupported("list method .%s() on %s" % (meth, base.what), e, fr)
                 if meth in ("append", "extend", "insert") and isinstance(basenode, ast.Name):
                     fr.env[basenode.id] = Lst("opaque") if base.what not in ("nums",) else base
                     return Other("none")
                 if meth in ("index", "count"):
                     return Scal(dt=I_)
                 if meth == "copy":
-                    return base
+                    return replace(base, argobj=None)
                 return Other("opaque")
             if fv.tag == "scalmethod":
                 self.eval_args(e, fr)
@@ -2196,12 +2219,14 @@ class ArrayInterp(Interp):
                 return replace(base, alias=base.alias | self.S(e), dt=dt, dtprov=E)
             return replace(base, alias=self.S(e), dt=dt, dtprov=prov_, maskof=E, dataof=E)
         if meth == "compressed":
-            return replace(base, kind="plain", M=E, shape="flat", alias=self.S(e), maskof=E, dataof=E)
+            # A31: with no mask array (nomask) compressed() is ravel() of the data - a VIEW for contiguous storage; only a real
+            # mask makes it a fresh copy.  Whether an input has a mask array is not known, so the result may share its data.
+            return replace(base, kind="plain", M=E, shape="flat", alias=self.S(e) | base.alias | base.dataof, maskof=E, dataof=E)
         if meth == "filled":
             fv_node = e.args[0] if e.args else next((k.value for k in e.keywords if k.arg == "fill_value"), None)
             fv_val = self.ev(fv_node, fr) if fv_node is not None else None
             vm = base.M if (base.kind == "masked" and base.isbool and isinstance(fv_val, Other) and fv_val.tag == "bool" and fv_val.info is False) else E
-            return replace(base, kind="plain", M=E, Pc=base.Pc, alias=self.S(e), maskof=E, dataof=E, D=base.D, validM=base.validM | vm,
+            return replace(base, kind="plain", M=E, Pc=base.Pc, alias=self.S(e) | base.alias | base.dataof, maskof=E, dataof=E, D=base.D, validM=base.validM | vm,  # A31: the data itself when there is no mask array
                            filledwith=(base.M if base.kind == "masked" else E, _src(fv_node) if fv_node is not None else None))
         if meth == "clip":
             lo = A[0] if A else K.get("min")
@@ -2216,9 +2241,11 @@ class ArrayInterp(Interp):
             ax0 = isinstance(ax, Scal) and ax.const == 0
             if base.shape == "rankdep":
                 self.finding("shape", e, "layer-axis sort on a rank-dependent stack (numpy.vstack, A10): for rank >= 2 axis 0 mixes cells of different positions", fr)
+            elif base.shape == "flat" and not any(is_input_token(t_) for t_ in base.alias | base.dataof):
+                pass  # a private 1-D collection of values (compressed / selected cells) put in order: no grid cell moves
             elif not (base.shape == "stacked" and ax0):
                 self.finding("equivariance", e, "sort along a data axis rearranges cells: %s" % _src(e), fr)
-            new = replace(base, sorted0=ax0 and base.shape in ("stacked", "rankdep"))
+            new = replace(base, sorted0=ax0 and base.shape in ("stacked", "rankdep"), ascending=base.shape in ("flat", "layervec") and ax is None)
             self.rebind(basenode, base, new, fr)
             return Other("none")
         if meth in ("soften_mask", "harden_mask", "unshare_mask", "shrink_mask"):
@@ -2319,6 +2346,15 @@ class ArrayInterp(Interp):
                 return Other("dtype", Arr(kind="plain", alias=E, dt={"builtins.float": F_, "builtins.int": I_, "builtins.bool": B_}[a0.info]))
             if isinstance(a0, Other) and a0.tag == "dtype":
                 return a0
+        if qn == "numpy.searchsorted" and len(A) >= 2 and not (isinstance(A[0], Arr) and A[0].ascending or isinstance(A[0], Lst) and A[0].sorted_) and "sorter" not in K:
+            self.finding("unsorted-search", e, "`%s` searches `%s` by bisection, but nothing puts that table in ascending order first: for any other order the search lands on the wrong entry (a listed value is reported as absent, or matched with another entry's slot)" % (_src(e)[:70], _src(e.args[0])), fr)
+        if qn == "numpy.searchsorted" and len(A) >= 2:
+            # position of a value in a sorted 1-D array: a whole-array quantity of that array (and of the value)
+            D_ = frozenset().union(*[x.D for x in A[:2] if isinstance(x, (Arr, Scal))])
+            Pg_ = frozenset().union(*[(x.Pg | (x.Pc if isinstance(x, Arr) else E)) for x in A[:2] if isinstance(x, (Arr, Scal))])
+            if isinstance(A[1], Arr):
+                return replace(A[1], alias=S(), dt=I_, D=D_, rng=(None, None), maskof=E, dataof=E, cmp=None)
+            return Scal(D=D_, Pg=Pg_, dt=I_)
         if qn in ("numpy.shape", "numpy.ma.shape") and len(A) == 1 and not K:
             if isinstance(a0, Arr):
                 return Lst("shape", srcs=(a0.shape,))
@@ -2380,7 +2416,7 @@ class ArrayInterp(Interp):
             if isinstance(a0, Lst) and a0.what == "nums" and a0.sliced is None:
                 # one number per input (the weights): a vector along the layer axis
                 el = a0.elem if isinstance(a0.elem, Scal) else Scal()
-                return Arr(kind="plain", alias=S(), shape="layervec", dt=IF_, D=el.D, Pg=el.Pg)
+                return Arr(kind="plain", alias=S(), shape="layervec", dt=IF_, D=el.D, Pg=el.Pg, ascending=a0.sorted_)
             return Arr(kind="plain", alias=S(), shape="unknown", dt=IF_)
         if qn in ("numpy.ma.empty", "numpy.ma.zeros", "numpy.ma.ones", "numpy.ma.masked_all", "numpy.full", "numpy.empty", "numpy.zeros", "numpy.ones",
                   "numpy.empty_like", "numpy.zeros_like", "numpy.ones_like", "numpy.full_like", "numpy.ma.empty_like", "numpy.ma.zeros_like", "numpy.ma.ones_like"):
@@ -2785,7 +2821,7 @@ class ArrayInterp(Interp):
                         Pg |= z.elem.Pg
                 return Lst("pairs", sorted_=True, srcs=a0.srcs, elem=Scal(D=D, Pg=Pg))
             if isinstance(a0, Lst):
-                return replace(a0, sorted_=True)
+                return replace(a0, sorted_=True, argobj=None)
             return Lst("opaque")
         if short == "zip":
             self.res.zips.append((e, tuple(A), self.fkey(fr)))
@@ -2816,7 +2852,7 @@ class ArrayInterp(Interp):
                 return Lst("opaque")
             if isinstance(a0, Lst) and short == "reversed" and a0.what in ("arrs", "cmds"):
                 return a0
-            return a0 if isinstance(a0, Lst) else Lst("opaque")
+            return replace(a0, argobj=None) if isinstance(a0, Lst) else Lst("opaque")
         if short in ("set", "frozenset"):
             return Other("set")
         if short == "range":
